@@ -14,6 +14,21 @@ def main():
     claimed = {c['property_id'] for c in json.load(open(os.path.join(HOME, 'MANIFEST.json')))['checks']}
     assert subprocess.run(['git', '-C', REPO, 'status', '--porcelain'], capture_output=True, text=True).stdout.strip() == '', "/repo not clean"
     rows = []
+    import shutil, tempfile
+    keep = tempfile.mkdtemp(prefix='evidence-keep-')
+    shutil.copytree(os.path.join(HOME, 'evidence'), os.path.join(keep, 'evidence'))
+    try:
+        _run(want, tier, claimed, rows)
+    finally:
+        # evidence files written while a seeded change was applied must never be committed
+        shutil.rmtree(os.path.join(HOME, 'evidence'))
+        shutil.copytree(os.path.join(keep, 'evidence'), os.path.join(HOME, 'evidence'))
+        shutil.rmtree(keep)
+    for row in rows:
+        print("%-8s %-12s %5.1fs  %s" % (row[0], row[1], row[3], row[2]))
+
+
+def _run(want, tier, claimed, rows):
     for d in sorted(os.listdir(os.path.join(HOME, 'seeded'))):
         pid = d.split('-')[0]
         if want and pid not in want and d not in want:
@@ -36,8 +51,6 @@ def main():
         finally:
             subprocess.run(['git', '-C', REPO, 'checkout', '--', '.'])
             subprocess.run(['git', '-C', REPO, 'clean', '-fdq'])
-    for row in rows:
-        print("%-8s %-12s %5.1fs  %s" % (row[0], row[1], row[3], row[2]))
 
 
 if __name__ == '__main__':
